@@ -247,6 +247,11 @@ func (c *Ctx) RunC10(tier string) {
 						rep.Count("c10:single-corruptions")
 						// single corruption plus a missing final newline
 						c.check10(&textCase{M: M, Legacy: legacy, Text: strings.TrimSuffix(text, "\n"), Note: k1.String() + " no final newline"})
+						if thorough && M == 8000 {
+							for cut := 1; cut < len(text)-1; cut++ {
+								c.check10(&textCase{M: M, Legacy: legacy, Text: text[:cut], Note: fmt.Sprintf("%s truncated at byte %d", k1.String(), cut)})
+							}
+						}
 					}
 					if thorough || fi < 3 {
 						for _, k2 := range sites[i+1:] {
@@ -263,6 +268,6 @@ func (c *Ctx) RunC10(tier string) {
 			}
 		}
 	}
-	rep.Bound = fmt.Sprintf("10 canonical files per dialect x M in %v: truncation at every byte; every single corruption (delete / duplicate / transpose a field, 19 replacement numbers, 5 bad mnemonics, 5 bad modes, 14 directive insertions at every line boundary), also without the final newline; every pair of corruptions (quick: for the first 3 files)", sizes)
+	rep.Bound = fmt.Sprintf("10 canonical files per dialect x M in %v: truncation at every byte; every single corruption (delete / duplicate / transpose a field, 19 replacement numbers, 5 bad mnemonics, 5 bad modes, 14 directive insertions at every line boundary), also without the final newline; every pair of corruptions (quick: for the first 3 files); (thorough) every single corruption truncated at every byte", sizes)
 	rep.Sample(strings.Join(canonicalFiles(true, 8000)[4], "\n") + "\n")
 }
